@@ -164,6 +164,8 @@ pub struct Gen<'a> {
     fn_names: Vec<Vec<String>>,
     /// label inside function k usable as a shared tail target
     tail_labels: Vec<Option<String>>,
+    /// labels on early returns of functions already written: (function index, label)
+    early_labels: Vec<(usize, String)>,
     /// helper functions `setslot<M>` (store M through the pointer in a0) that the program calls
     setslots: Vec<i64>,
     /// helper functions `seta7_<M>` (set a7 to M and return)
@@ -179,6 +181,7 @@ pub fn generate(r: &mut Rng, cfg: &GenCfg) -> Vec<String> {
         data_labels: Vec::new(),
         fn_names: Vec::new(),
         tail_labels: Vec::new(),
+        early_labels: Vec::new(),
         setslots: Vec::new(),
         seta7: Vec::new(),
     };
@@ -640,6 +643,18 @@ impl Gen<'_> {
     fn body(&mut self, ctx: &mut FnCtx, items: usize, depth: usize) {
         for _ in 0..items {
             let in_fn = ctx.idx.is_some();
+            if in_fn && self.cfg.overlap_heavy && depth < 3 && self.r.chance(1, 6) {
+                // a labelled early return: later functions can end in it
+                let lc = self.fresh("cont");
+                let c = self.cond(ctx, &lc);
+                self.emit(c);
+                let le = self.fresh("early");
+                self.emit_label(&le);
+                self.early_labels.push((ctx.idx.unwrap_or(usize::MAX), le));
+                self.ret(ctx);
+                self.emit_label(&lc);
+                continue;
+            }
             match self.r.below(21) {
                 20 if depth < 3 => {
                     // unstructured jumps: a block that is only entered by a backward jump
@@ -714,7 +729,8 @@ impl Gen<'_> {
                 }
                 14..=17 if in_fn && self.cfg.overlap_heavy && self.r.chance(1, 2) => {
                     let me = ctx.idx.unwrap_or(usize::MAX);
-                    let tails: Vec<String> = self.tail_labels.iter().enumerate().filter(|(k, t)| *k != me && t.is_some()).filter_map(|(_, t)| t.clone()).collect();
+                    let mut tails: Vec<String> = self.tail_labels.iter().enumerate().filter(|(k, t)| *k != me && t.is_some()).filter_map(|(_, t)| t.clone()).collect();
+                    tails.extend(self.early_labels.iter().filter(|(k, _)| *k != me).map(|(_, l)| l.clone()));
                     if let Some(t) = tails.get(self.r.usize(tails.len().max(1))).cloned() {
                         let c = self.cond(ctx, &t);
                         self.emit(c);
@@ -726,7 +742,8 @@ impl Gen<'_> {
                     // conditional jump into the tail of some other function: a function can then
                     // reach the code (and the exits) of several others
                     let me = ctx.idx.unwrap_or(usize::MAX);
-                    let tails: Vec<String> = self.tail_labels.iter().enumerate().filter(|(k, t)| *k != me && t.is_some()).filter_map(|(_, t)| t.clone()).collect();
+                    let mut tails: Vec<String> = self.tail_labels.iter().enumerate().filter(|(k, t)| *k != me && t.is_some()).filter_map(|(_, t)| t.clone()).collect();
+                    tails.extend(self.early_labels.iter().filter(|(k, _)| *k != me).map(|(_, l)| l.clone()));
                     if tails.is_empty() {
                         self.arith(ctx);
                     } else {
@@ -740,6 +757,13 @@ impl Gen<'_> {
                     let lc = self.fresh("cont");
                     let c = self.cond(ctx, &lc);
                     self.emit(c);
+                    if self.cfg.shared_tail && self.r.chance(1, 2) {
+                        // ... with a label on it, so that functions written further down can end
+                        // in this function's *first* return without reaching its last
+                        let le = self.fresh("early");
+                        self.emit_label(&le);
+                        self.early_labels.push((ctx.idx.unwrap_or(usize::MAX), le));
+                    }
                     self.ret(ctx);
                     self.emit_label(&lc);
                 }
@@ -756,6 +780,11 @@ impl Gen<'_> {
                     }
                     self.emit(format!("li {}, {n1}", self.reg("a7")));
                     self.emit("ecall".into());
+                    if self.r.chance(1, 2) {
+                        // an ordinary instruction between the two: the second ecall is not the
+                        // direct successor of the first
+                        self.emit(format!("addi {0}, {0}, 1", self.reg("t3")));
+                    }
                     self.emit_label(&lx);
                     self.emit("ecall".into());
                     if in_fn && self.r.chance(1, 2) {
